@@ -14,6 +14,7 @@ mod cases_rank;
 mod cases_lenders;
 mod cases_vfilter;
 mod cases_select;
+mod cases_shard;
 mod cases_ef;
 mod cases_rcl;
 mod cases_atomic;
@@ -31,7 +32,7 @@ impl Rng {
     pub fn below(&mut self, n: u64) -> u64 { if n == 0 { 0 } else { self.next() % n } }
 }
 
-pub struct Ctx { pub case: String, pub fails: usize, pub trials: usize, pub max_fails: usize }
+pub struct Ctx { pub case: String, pub fails: usize, pub trials: usize, pub max_fails: usize, pub seen: Vec<String> }
 impl Ctx {
     /// run one trial; `f` returns Err(reason) on a contract violation; a panic is a violation only
     /// when `panic_ok` is false
@@ -50,6 +51,10 @@ impl Ctx {
         }
     }
     fn fail(&mut self, input: &str, reason: &str) {
+        // one report per distinct reason (digits normalised): a second input failing the same way is not news
+        let key: String = reason.chars().map(|c| if c.is_ascii_digit() { '#' } else { c }).take(80).collect();
+        if self.seen.contains(&key) { return; }
+        self.seen.push(key);
         self.fails += 1;
         println!("FAIL {} {} :: {}", self.case, input, reason.replace('\n', " "));
         std::io::stdout().flush().ok();
@@ -63,7 +68,7 @@ fn main() {
     if args.len() < 3 { eprintln!("usage: sux-witness search <case> <seed> <budget> | one <case> <json>"); std::process::exit(2); }
     let mode = args[1].as_str();
     let case = args[2].clone();
-    let mut ctx = Ctx { case: case.clone(), fails: 0, trials: 0, max_fails: 1 };
+    let mut ctx = Ctx { case: case.clone(), fails: 0, trials: 0, max_fails: std::env::var("WITNESS_MAX_FAILS").ok().and_then(|s| s.parse().ok()).unwrap_or(1), seen: Vec::new() };
     match mode {
         "search" => {
             let seed: u64 = args.get(3).and_then(|s| s.parse().ok()).unwrap_or(0);
@@ -87,11 +92,12 @@ fn dispatch(case: &str, ctx: &mut Ctx, one: Option<&str>, rng: &mut Rng, budget:
         "ef_seq" | "ef_dict" | "ef_builder" | "ef_big" => cases_ef::run(case, ctx, one, rng, budget),
         "atomic" => cases_atomic::run(case, ctx, one, rng, budget),
         "rcl" => cases_rcl::run(case, ctx, one, rng, budget),
+        "shard_edge" => cases_shard::run(case, ctx, one, rng, budget),
         "select_all" => cases_select::run(case, ctx, one, rng, budget),
         "vfilter" => cases_vfilter::run(case, ctx, one, rng, budget),
         "lenders" | "lenders_take" => cases_lenders::run(case, ctx, one, rng, budget),
         "rank9" | "rank_all" => cases_rank::run(case, ctx, one, rng, budget),
-        "bfv_ops" | "bfv_copy" | "bfv_unaligned" | "bfv_apply" => cases_bfv::run(case, ctx, one, rng, budget),
+        "bfv_ops" | "bfv_copy" | "bfv_unaligned" | "bfv_apply" | "bfv_misc" => cases_bfv::run(case, ctx, one, rng, budget),
         _ => { eprintln!("unknown case {}", case); std::process::exit(2); }
     }
 }
